@@ -648,6 +648,16 @@ static Token *subst(Token *tok, MacroArg *args, bool is_objlike) {
 
       if (arg->tok->kind == TK_EOF) {
         MacroArg *arg2 = find_arg(args, rhs);
+
+        // An empty argument stands for a placemarker. If the right operand
+        // is a placemarker too, the result is a placemarker again, and it
+        // is the left operand of a following ## (C11 6.10.3.3p3).
+        while (arg2 && arg2->tok->kind == TK_EOF && equal(rhs->next, "##") &&
+               rhs->next->next->kind != TK_EOF) {
+          rhs = rhs->next->next;
+          arg2 = find_arg(args, rhs);
+        }
+
         if (arg2) {
           for (Token *t = arg2->tok; t->kind != TK_EOF; t = t->next)
             cur = cur->next = copy_token(t);
